@@ -431,8 +431,19 @@ def _remote_stacked_source_failure(case, sfmt, tfmt, e):
             "bytes-like object" in str(e):
         return ("C03/rich-root-upgrade-from-remote-stacked-source-into-"
                 "stacked-target-typeerror")
-    if tfmt != "2a" and name == "ErrorFromSmartServer" and \
-            "BzrCheckError" in str(e) and "Newly created pack file" in str(e):
+    if name == "ValueError" and sfmt not in RICH and tfmt in RICH and \
+            "not a bytes string" in str(e):
+        # same root cause as the TypeError above (Inter1and2Helper.
+        # _find_root_ids hands tuples of parent ids to the remote graph);
+        # which of the two is raised depends on the remote call taken
+        return ("C03/rich-root-upgrade-from-remote-stacked-source-into-"
+                "stacked-target-valueerror")
+    if tfmt != "2a" and sfmt != "2a" and (
+            (name == "ErrorFromSmartServer" and "BzrCheckError" in str(e)
+             and "Newly created pack file" in str(e)) or
+            (name == "AssertionError" and case.get("remote") == "both" and
+             "second push failed to complete a fetch" in str(e) and
+             "('inventories'," in str(e))):
         return _PRE2A_SIG
     if sfmt == tfmt == "2a":
         msg = str(e)
@@ -445,6 +456,31 @@ def _remote_stacked_source_failure(case, sfmt, tfmt, e):
             return ("C03/remote-stacked-2a-source-into-stacked-2a-target-"
                     "incomplete-stream")
     return None
+
+
+_ROOT_HEADS_SIG = ("C03/rich-root-upgrade-from-remote-stacked-source-root-"
+                   "text-parents-not-heads")
+
+
+def _root_text_heads_class(case, sfmt, tfmt, stacked, repo):
+    """Names one class of check() failure: rich-root upgrade from a source
+    that is stacked and opened through the smart server (target not stacked):
+    the server builds the synthesised root texts of the revisions held by the
+    stacked repository with that repository's own graph, in which parents
+    living in the fallback are unknown, so a parent that is an ancestor of
+    another parent is not dropped. Only inconsistencies of exactly that shape
+    (root id, stored parents a proper superset of the right ones) count."""
+    if case.get("src_stacked") is None or stacked is not None or \
+            case.get("remote") not in ("src", "both") or sfmt in RICH or \
+            tfmt not in RICH:
+        return
+    res = repo.check(None)
+    bad = res.inconsistent_parents
+    if bad and all(cf._s(i[1]) == tm.ROOT_ID and set(i[3]) < set(i[2])
+                   for i in bad):
+        raise Expect(_ROOT_HEADS_SIG,
+                     [[cf._s(i[0]), [cf._s(x) for x in i[2]],
+                       [cf._s(x) for x in i[3]]] for i in bad][:5])
 
 
 def _run_transfers(case, env, d, tpath, spath, sfmt, tfmt, spec, g, want, pre,
@@ -488,6 +524,7 @@ def _run_transfers(case, env, d, tpath, spath, sfmt, tfmt, spec, g, want, pre,
                 check(cf.testament_texts(t, bz.enc(r), True) == before_tst[r],
                       "C03/%sunrelated-revision-changed" % (
                           tag + "-" if tag else ""), r)
+        _root_text_heads_class(case, sfmt, tfmt, stacked, t)
         cf.check_clean(t, "C03/%s" % (tag + "-" if tag else ""))
         if stacked is not None:
             check(cf.repo_dir_snapshot(os.path.join(d, "base")) == base_disk,
